@@ -126,6 +126,13 @@ def gen_datetime_value(rng, gi):
     return gi.Gst.DateTime(*fields[:prec])
 
 
+class Unknown:
+    """A tag value of a type convert_taglist does not know (it ignores those)."""
+
+    def __repr__(self):
+        return "<unknown-type value>"
+
+
 def gen_taglist(rng, gi):
     """(items for a FakeTagList, faulty?)  faulty = contains a signed number"""
     items = []
@@ -150,6 +157,13 @@ def gen_taglist(rng, gi):
             vals = [gen_datetime_value(rng, gi) for _ in range(n)]
         else:
             vals = [gen_text(rng) if rng.random() < 0.9 else rng.choice(["café".encode(), b"\xff\xferaw"]) for _ in range(n)]
+        # values convert_taglist cannot convert (a sample without data, a value of a type it
+        # does not know): mixed in, or - for a tenth of the tags - the ONLY values of the tag
+        r = rng.random()
+        if r < 0.10:
+            vals = [rng.choice([make_sample(gi, None), make_sample(gi, b""), Unknown()]) for _ in range(rng.randint(1, 2))]
+        elif r < 0.18:
+            vals.insert(rng.randrange(len(vals) + 1), rng.choice([make_sample(gi, None), Unknown()]))
         items.append((k, vals))
     for k in OTHER_TAGS:
         if rng.random() < 0.15:
@@ -263,6 +277,8 @@ def g_gvalue(v, gi):
         return f"(GDate {g_z(v.get_year())} {g_z(v.get_month())} {g_z(v.get_day())})"
     if isinstance(v, gi.Gst.DateTime):
         return f"(GDateTime {g_str(v.to_iso8601_string())})"
+    if isinstance(v, Unknown) or (isinstance(v, gi.Gst.Sample) and not (v.get_buffer() and v.get_buffer().get_all_memory().map(None)[1].data)):
+        return "GDropped"
     return None
 
 
@@ -363,10 +379,15 @@ def run(chk, fx=FX):
             raw = g_raw(payload, gir)
             if raw is not None:
                 raw_rows.append((raw, g_tags(d), payload, d))
+                if any(k in KEYS and k not in d for k, _v in payload):
+                    chk.dist("taglist:tag-vanished(only unconvertible values)")
                 chk.dist("taglist:dates-dropped" if len(d.get("date", [])) < sum(len(v) for k, v in payload if k == "date") else "taglist:all-kept")
         else:
             d = payload
-        in_domain = typed(d)
+        # direct dicts: in the domain iff typed; taglists: the generated raw taglists all have
+        # GStreamer's registered value types (plus ignored ones), so the composed pipeline
+        # convert_taglist -> convert_tags_to_track must not raise whatever the dict looks like
+        in_domain = typed(d) or kind.startswith("taglist")
         try:
             track = tags_mod.convert_tags_to_track(d)
             obs = ("ok", track)
@@ -384,6 +405,11 @@ def run(chk, fx=FX):
                 chk.monitor_failure("tags_fields_valid", {"call": "convert_tags_to_track", "fields": bad},
                                     "a field set by convert_tags_to_track violates its model constraint", {"tags": repr(d)})
         elif in_domain:
+            if kind.startswith("taglist") and not typed(d):
+                chk.monitor_failure("taglist_pipeline_total", {"call": "convert_tags_to_track(convert_taglist(taglist))", "exc": obs[1] if obs[1] != "OtherExn" else obs[2]},
+                                    f"the scanner's tag list converted to a dict on which convert_tags_to_track raised {obs[2] if obs[1] == 'ValidationError' else obs[1]}",
+                                    {"taglist": repr(payload)[:800], "dict": repr(d)[:600]})
+                continue
             shape = obs[2]
             chk.monitor_failure("tags_total", {"call": "convert_tags_to_track", "exc": obs[1] if obs[1] != "OtherExn" else obs[2], "field": shape},
                                 f"convert_tags_to_track raised {obs[1]} ({shape})", {"tags": repr(d)})
